@@ -4,6 +4,7 @@ package main
 // with a NOTIFICATION that names a fault actually present.
 
 import (
+	"os"
 	"fmt"
 	"go/types"
 
@@ -91,15 +92,80 @@ func (c *Check) runCases(rule string, fnName string, cases []asmCase) {
 			if d := cs.forbid(rs); d != "" {
 				bad = d
 				badPos = rs.pos
+				if os.Getenv("CBGP_DEBUG") != "" {
+					fmt.Printf("DEBUG %s [%s] %s\n   %s\n", fnName, cs.name, rs.pos, rs.rs.State.digest())
+					for _, b := range fn.Blocks {
+						fmt.Printf("   block %d: %v\n", b.Index, sortedKeys(a.In[b]))
+						if b.Index == 17 || b.Index == 15 {
+							for k, st := range a.In[b] {
+								fmt.Printf("      [%s] %s\n", k, st.digest())
+							}
+						}
+					}
+				}
 				break
 			}
 		}
 		if bad == "" && cs.noBackEdge {
+			// the loop that examines the element: the innermost loop whose
+			// body reads a field of a Capability (all loops if none does)
+			elemBlocks := map[*ssa.BasicBlock]bool{}
+			ownInstrs(fn, func(in ssa.Instruction) {
+				switch x := in.(type) {
+				case *ssa.FieldAddr:
+					if structNameOfPtr(x.X.Type()) == "Capability" {
+						elemBlocks[x.Block()] = true
+					}
+				case *ssa.Field:
+					if typeNameOf(x.X.Type()) == "Capability" {
+						elemBlocks[x.Block()] = true
+					}
+				}
+			})
+			loopBody := func(head, tail *ssa.BasicBlock) map[*ssa.BasicBlock]bool {
+				body := map[*ssa.BasicBlock]bool{head: true}
+				stack := []*ssa.BasicBlock{tail}
+				for len(stack) > 0 {
+					x := stack[len(stack)-1]
+					stack = stack[:len(stack)-1]
+					if body[x] {
+						continue
+					}
+					body[x] = true
+					stack = append(stack, x.Preds...)
+				}
+				return body
+			}
+			best := -1
+			type be struct{ b, s *ssa.BasicBlock }
+			var cands []be
 			for _, b := range fn.Blocks {
 				for _, s := range b.Succs {
-					if s.Dominates(b) && s != b && a.EdgeReachable(b, s) {
-						bad = fmt.Sprintf("loop continues (back edge block %d->%d reachable) although the current element is faulty", b.Index, s.Index)
+					if !(s.Dominates(b) && s != b) {
+						continue
 					}
+					body := loopBody(s, b)
+					has := len(elemBlocks) == 0
+					for eb := range elemBlocks {
+						if body[eb] {
+							has = true
+						}
+					}
+					if !has {
+						continue
+					}
+					if best < 0 || len(body) < best {
+						best = len(body)
+						cands = nil
+					}
+					if len(body) == best {
+						cands = append(cands, be{b, s})
+					}
+				}
+			}
+			for _, e := range cands {
+				if a.EdgeReachable(e.b, e.s) {
+					bad = fmt.Sprintf("loop continues (back edge block %d->%d reachable) although the current element is faulty", e.b.Index, e.s.Index)
 				}
 			}
 		}
@@ -159,9 +225,17 @@ func checkC02(c *Check) {
 	idDistinct := relHook(ldID, pLocalID, "!=")
 	asDistinct := relHook(pLocalAS, pRemoteAS, "!=")
 	allOtherOK := hooks(okVersion, okHold, notMulticast, idDistinct)
-	someCaps := rangeHook(func(e *Expr) bool {
-		return e.Op == "len" && e.Args[0].Op == "rcall" && e.Args[0].S == "openMessage.getCapabilities"
-	}, isRange(1, posInf))
+	// "the OPEN carries at least one capability", however validate walks them:
+	// through getCapabilities(), or directly over optionalParams / capabilities
+	someCaps := hooks(rangeHook(func(e *Expr) bool {
+		if e.Op != "len" {
+			return false
+		}
+		x := e.Args[0]
+		return (x.Op == "rcall" && x.S == "openMessage.getCapabilities") || isFieldRead(x, "optionalParams") || isFieldRead(x, "capabilities")
+	}, isRange(1, posInf)), rangeHook(func(e *Expr) bool {
+		return e.Op == "istype" && e.S == "*capabilityOptionalParam"
+	}, isConst(1)))
 
 	// C02.1 — every faulty OPEN is rejected (accept unreachable under fault)
 	c.runCases("C02.1 faulty-open-rejected", "openMessage.validate", []asmCase{
@@ -296,29 +370,51 @@ func checkC02(c *Check) {
 	// found-flag monotonicity: a bool loop flag that starts false is only ever
 	// set to true inside the loop (a later capability cannot "unfind" one)
 	flags := 0
-	for _, b := range validate.Blocks {
+	var vblocks []*ssa.BasicBlock
+	for _, g := range deepFuncs(validate) {
+		vblocks = append(vblocks, g.Blocks...)
+	}
+	for _, b := range vblocks {
 		for _, in := range b.Instrs {
 			phi, ok := in.(*ssa.Phi)
 			if !ok {
 				break
 			}
-			if !isBoolType(phi.Type()) || !inLoop(b) {
+			if !isBoolType(phi.Type()) || !inLoopLocal(b) {
 				continue
 			}
+			// leaves of the phi family (nested loops carry the flag through
+			// several phis): only `false` from outside every loop and `true`
 			entryFalse := false
 			good := true
-			for i, e := range phi.Edges {
-				pred := b.Preds[i]
-				isBack := b.Dominates(pred)
-				cst, isC := e.(*ssa.Const)
-				switch {
-				case !isBack && isC && cst.Value != nil && cst.Value.String() == "false":
-					entryFalse = true
-				case isBack && (e == ssa.Value(phi) || (isC && cst.Value != nil && cst.Value.String() == "true")):
-				case isBack:
-					good = false
+			seenPhi := map[*ssa.Phi]bool{}
+			var walk func(q *ssa.Phi)
+			walk = func(q *ssa.Phi) {
+				if seenPhi[q] {
+					return
+				}
+				seenPhi[q] = true
+				for i, e := range q.Edges {
+					pred := q.Block().Preds[i]
+					switch x := e.(type) {
+					case *ssa.Phi:
+						walk(x)
+					case *ssa.Const:
+						switch {
+						case x.Value != nil && x.Value.String() == "true":
+						case x.Value != nil && x.Value.String() == "false" && !inLoopLocal(pred):
+							if q == phi {
+								entryFalse = true
+							}
+						default:
+							good = false
+						}
+					default:
+						good = false
+					}
 				}
 			}
+			walk(phi)
 			if entryFalse {
 				flags++
 				c.require(good, "C02.1 found-flag-monotone", "openMessage.validate", "loop flag "+phi.Comment, p.InstrPos(phi), "a capability-found flag initialised false may only be set to true in the loop")
